@@ -33,7 +33,9 @@ CONSTANTS
   AllowCancel,    \* a suspended get() may be dropped
   AllowPanic,     \* manager / hooks may panic
   ThreadLevel,    \* TRUE: every segment is a scheduling unit; FALSE: a task runs until it suspends
-  HoldAndWait     \* TRUE: a task may start a waiting get() while it holds objects itself (FALSE for liveness)
+  HoldAndWait,    \* TRUE: a task may start a waiting get() while it holds objects itself (FALSE for liveness)
+  UnwindDrops     \* TRUE: a caller whose get() panics drops the objects it holds while the panic unwinds
+                  \* (what a panicking tokio task does): they are returned to the pool one after the other
 
 NoTask == "none"
 NoObj  == 0
@@ -126,6 +128,16 @@ Sched(t) ==
   /\ running \in {NoTask, t}
   /\ running' = IF ThreadLevel \/ Yielded(t) THEN NoTask ELSE t
 SetRes(t, r) == res' = [res EXCEPT ![t] = r]
+
+\* End of a step that finishes an operation.  Normally the task is idle afterwards; while a panic unwinds
+\* the caller's frame (res = "panic" survives the returns: they do not set it) the next object it holds is
+\* dropped, i.e. returned to the pool (lowest id first - the order is the caller's business).
+Unwinding(t) == UnwindDrops /\ res[t] = "panic" /\ held[t] # {} /\ ~poolGone
+NextDrop(t) == CHOOSE o \in held[t] : \A p \in held[t] : o <= p
+Finish(t) ==
+  IF Unwinding(t)
+  THEN /\ held' = [held EXCEPT ![t] = @ \ {NextDrop(t)}] /\ obj' = [obj EXCEPT ![t] = NextDrop(t)] /\ Goto(t, "ret_users")
+  ELSE /\ Goto(t, "idle") /\ obj' = [obj EXCEPT ![t] = NoObj] /\ UNCHANGED held
 
 Spend == budget > 0 /\ budget' = budget - 1
 
@@ -365,8 +377,8 @@ GExit(t) ==
 \* users_guard: users.fetch_sub
 XUsers(t) ==
   /\ pc[t] = "x_users" /\ users' = users - 1 /\ panicked' = (panicked \/ users = 0)
-  /\ Goto(t, "idle")
-  /\ UNCHANGED <<sem, slots, obj, mode, cto, rto, arg, cnt, susp, res, chain, ov, held, nextObj, alive, det, taken, ho, orphan, late, budget, poolGone, closeRet>>
+  /\ Finish(t)
+  /\ UNCHANGED <<sem, slots, mode, cto, rto, arg, cnt, susp, res, chain, ov, nextObj, alive, det, taken, ho, orphan, late, budget, poolGone, closeRet>>
   /\ Sched(t)
 
 ----------------------------------------------------------------------------
@@ -392,16 +404,16 @@ RetUsers(t) ==
 RetLock(t) ==
   /\ pc[t] = "ret_lock" /\ lock = NoTask
   /\ IF size <= maxSize
-     THEN /\ idle' = Append(idle, obj[t]) /\ Goto(t, "ret_add") /\ UNCHANGED <<size, det, alive, panicked>>
+     THEN /\ idle' = Append(idle, obj[t]) /\ Goto(t, "ret_add") /\ UNCHANGED <<size, det, alive, panicked, held>>
+          /\ obj' = [obj EXCEPT ![t] = NoObj]
      ELSE /\ size' = size - 1 /\ panicked' = (panicked \/ size = 0)
-          /\ LetGo({obj[t]}) /\ Goto(t, "idle") /\ UNCHANGED idle
-  /\ obj' = [obj EXCEPT ![t] = NoObj]
-  /\ UNCHANGED <<sem, creating, maxSize, lock, users, mode, cto, rto, arg, cnt, susp, res, chain, ov, held, nextObj, taken, ho, orphan, late, budget, poolGone, closeRet>>
+          /\ LetGo({obj[t]}) /\ Finish(t) /\ UNCHANGED idle
+  /\ UNCHANGED <<sem, creating, maxSize, lock, users, mode, cto, rto, arg, cnt, susp, res, chain, ov, nextObj, taken, ho, orphan, late, budget, poolGone, closeRet>>
   /\ Sched(t)
 
 RetAdd(t) ==
-  /\ pc[t] = "ret_add" /\ SemRelease(1) /\ Goto(t, "idle")
-  /\ UNCHANGED <<slots, users, obj, mode, cto, rto, arg, cnt, susp, res, chain, ov, gv>>
+  /\ pc[t] = "ret_add" /\ SemRelease(1) /\ Finish(t)
+  /\ UNCHANGED <<slots, users, mode, cto, rto, arg, cnt, susp, res, chain, ov, nextObj, alive, det, taken, ho, orphan, late, budget, poolGone, closeRet, panicked>>
   /\ Sched(t)
 
 ----------------------------------------------------------------------------
